@@ -5,8 +5,8 @@
 From Coq Require Import List ZArith.
 From Webp Require Import Base.Res Base.Bytes Riff.ParserModel Riff.ParserSpec Riff.FeaturesModel
      Riff.PrefixProofs Riff.FeaturesProofs Riff.MetadataProofs Riff.ParserSpecProofs Riff.WriterModel
-     Riff.WriterTheorems Riff.ParserGrammar Riff.ParserDemuxAgree Riff.ParserDemuxAnim.
-From Webp Require Riff.RiffGrammar Riff.DemuxModel.
+     Riff.WriterTheorems Riff.ParserGrammar Riff.ParserDemuxAgree Riff.ParserDemuxAnim Riff.FeaturesAlphaLossless.
+From Webp Require Riff.RiffGrammar Riff.DemuxModel Vp8l.Vp8lSpec Vp8l.Vp8lEmit Vp8l.Vp8lRoundtrip Vp8l.Vp8lPixel.
 Import ListNotations.
 Open Scope Z_scope.
 
@@ -65,6 +65,28 @@ Theorem C16_alpha_flag_sound_lossy :
     exists g, get_features fx file = Ok g /\ gHasAlpha g = true.
 Proof. exact alpha_flag_sound_lossy. Qed.
 Print Assumptions C16_alpha_flag_sound_lossy.
+
+(** Alpha flag, LOSSLESS files written by this package: for every source picture,
+    options and valid encoder choices (Vp8lRoundtrip.valid, the C01 theorem's
+    hypothesis) where the alpha_is_used bit is chosen as the Go encoder chooses it
+    (encodeStream(argbHasAlpha(argb)), commit 552ea86), and every metadata, the
+    written file's GetFeatures.HasAlpha is true IF AND ONLY IF some pixel of the
+    picture the VP8L specification decoder returns is not opaque; width/height
+    agree as well.  (Composition of C01_lossless_roundtrip, the emitted header
+    bytes, the writer/parser round trip and the GetFeatures glue.) *)
+Theorem C16_alpha_flag_sound_lossless :
+  forall img o c icc exif xmp fx file,
+    Vp8lRoundtrip.valid img o c -> go_alpha_choice img o c ->
+    sizes_ok (Vp8lEmit.emit (Vp8lRoundtrip.plan_of img o c)) [] icc exif xmp -> len icc <= MaxMetadataSize ->
+    write_riff FourCCVP8L (Vp8lEmit.emit (Vp8lRoundtrip.plan_of img o c)) []
+               (Vp8lRoundtrip.s_w img) (Vp8lRoundtrip.s_h img) icc exif xmp = Ok file ->
+    exists im g,
+      Vp8lSpec.decode (Vp8lEmit.emit (Vp8lRoundtrip.plan_of img o c)) = Ok im /\
+      get_features fx file = Ok g /\
+      gW g = Vp8lSpec.i_w im /\ gH g = Vp8lSpec.i_h im /\
+      (gHasAlpha g = true <-> Exists (fun p => Vp8lPixel.pa p <> 255) (Vp8lSpec.i_px im)).
+Proof. exact alpha_flag_sound_lossless. Qed.
+Print Assumptions C16_alpha_flag_sound_lossless.
 
 (** Specification view vs parser view: every byte file (up to the metadata cap)
     that the specification-side RIFF walker judges a well-formed still -- sizes,
@@ -134,6 +156,16 @@ Theorem C16_views_agree_anim :
       fLoopCount (pFeat r) = DemuxModel.d_loop d.
 Proof. exact views_agree_anim. Qed.
 Print Assumptions C16_views_agree_anim.
+
+(** Canvas area at or above MaxImageArea (2^30): both parsers reject the file
+    (the demuxer since commit 07b7141), so the views still agree. *)
+Theorem C16_big_canvas_both_reject :
+  forall fx bs,
+    RiffGrammar.wf bs = true -> g_is_anim bs = true -> len bs <= MaxMetadataSize ->
+    MaxImageArea <= g_canvas_area bs ->
+    parse fx bs = Err EInvalidImage /\ DemuxModel.parse true bs = Err DemuxModel.E_vp8x.
+Proof. exact big_canvas_both_reject. Qed.
+Print Assumptions C16_big_canvas_both_reject.
 
 (** Both layouts in one statement. *)
 Theorem C16_views_agree_two_parsers : forall fx bs,
